@@ -8,6 +8,7 @@ import Jesse.FillAbsent
 import Jesse.Store
 import Proofs.Lemmas.Num
 import Proofs.Lemmas.ListExtra
+import Proofs.Lemmas.StoreArray
 
 namespace C20
 open Jesse Jesse.FillAbsent
@@ -363,6 +364,138 @@ theorem same_timestamp_replaces (arr : List Candle) (c : Candle) (hs : Sorted ar
         omega)]
       have := ListExtra.reverse_set_reverse arr k c hklt
       rw [← this]
+
+/-! ### the store on the real array class
+
+`Jesse/StoreD.lean` is `add_candle` written with the calls the Python makes on its `DynamicNumpyArray`
+(`len`, `arr[-1]`, `append`, `arr[-1] = c`, the search `arr[-i]` / `arr[-i] = c`), on the array model of C18.
+The theorems below say that, on the array's logical content, it IS the list algorithm the rest of this file (and the
+engine model) reasons about — for every array state that satisfies the class invariant, every bucket size, every
+candle.  This is the composition C18 ∘ C20 that used to be trusted. -/
+
+open Jesse.StoreD StoreArray in
+theorem append_keeps_dropAt (a a' : DynArray) (r : Row) (h : a.append r = .ok a') : a'.dropAt = a.dropAt := by
+  unfold DynArray.append DynArray.writeRow at h
+  dsimp only at h
+  split at h
+  · injection h with h; rw [← h]
+  · exact absurd h (by simp)
+
+open Jesse.StoreD StoreArray in
+theorem setItem_keeps_dropAt (a a' : DynArray) (i : Int) (r : Row) (h : a.setItem i r = .ok a') :
+    a'.dropAt = a.dropAt := by
+  unfold DynArray.setItem at h
+  dsimp only at h
+  split at h
+  · exact absurd h (by simp)
+  · split at h
+    · injection h with h; rw [← h]
+    · exact absurd h (by simp)
+
+open Jesse.StoreD StoreArray in
+theorem replaceLoop_keeps_dropAt (r : Row) (fuel : Nat) : ∀ (a a' : DynArray) (i : Nat),
+    replaceLoop a r fuel i = .ok a' → a'.dropAt = a.dropAt := by
+  induction fuel with
+  | zero => intro a a' i h; unfold replaceLoop at h; injection h with h; rw [h]
+  | succ fuel ih =>
+    intro a a' i h
+    unfold replaceLoop at h
+    split at h
+    · exact absurd h (by simp)
+    · split at h
+      · exact setItem_keeps_dropAt _ _ _ _ h
+      · exact ih _ _ _ h
+
+open Jesse.StoreD StoreArray Jesse.DynArray in
+/-- ONE `add_candle` on the array = `addCandle` on the list it holds; it never raises, and the class invariant and
+    the absence of `drop_at` carry over -/
+theorem addCandleD_refines (a : DynArray) (h : Inv a) (hd : a.dropAt = none) (arr : List Candle) (c : Candle)
+    (habs : a.abs = arr.map enc) :
+    ∃ a', addCandleD a (enc c) = .ok a' ∧ a'.abs = (Store.addCandle arr c).map enc ∧ Inv a' ∧ a'.dropAt = none := by
+  have hdrop : ∀ d, a.dropAt = some d → 0 < d := by intro d hh; rw [hd] at hh; exact absurd hh (by simp)
+  have hlen : a.len = (arr.length : Int) := by rw [C18.refines_len a h, habs, List.length_map]
+  unfold addCandleD Store.addCandle
+  rw [ts_enc]
+  by_cases hz : c.ts = 0
+  · simp only [hz, Int.cast_zero, if_true]
+    exact ⟨a, rfl, habs, h, hd⟩
+  · have hz' : ¬ ((c.ts : Int) : Rat) = 0 := by rw [Rat.intCast_eq_zero_iff]; exact hz
+    simp only [hz', hz, if_false]
+    -- what an append does
+    have happ : ∃ a', a.append (enc c) = .ok a' ∧ a'.abs = (arr ++ [c]).map enc ∧ Inv a' ∧ a'.dropAt = none := by
+      obtain ⟨a', hok, ha, hi⟩ := C18.refines_append a h (enc c) hdrop
+      refine ⟨a', hok, ?_, hi, by rw [append_keeps_dropAt a a' _ hok, hd]⟩
+      rw [ha, hd, habs]; simp [Spec.listAppend, Spec.listAppendAll]
+    cases hl : arr.getLast? with
+    | none =>
+      have harr : arr = [] := List.getLast?_eq_none_iff.mp hl
+      have h0 : a.len = 0 := by rw [hlen, harr]; rfl
+      simp only [h0, if_true]
+      exact happ
+    | some last =>
+      have hne : arr ≠ [] := by intro h0; rw [h0] at hl; simp at hl
+      have hpos : 0 < arr.length := List.length_pos_iff.mpr hne
+      have h0 : ¬ a.len = 0 := by rw [hlen]; omega
+      simp only [h0, if_false]
+      have hget : a.getItem (-1) = .ok (enc last) := by
+        rw [C18.refines_getItem a h (-1), getIdx_neg_one, habs, List.getLast?_map, hl]; rfl
+      rw [hget]
+      simp only [ts_enc, gt_iff_lt, Rat.intCast_lt_intCast, Rat.intCast_inj]
+      by_cases hgt : last.ts < c.ts
+      · simp only [hgt, if_true]; exact happ
+      · simp only [hgt, if_false]
+        by_cases heq : c.ts = last.ts
+        · simp only [heq, if_true]
+          have hset := C18.refines_setItem a h (-1) (enc c)
+          have hn : Py.normIdx a.abs.length (-1) = some (a.abs.length - 1) := by
+            have := normIdx_neg a.abs.length 1 (Nat.le_refl 1) (by rw [habs, List.length_map]; omega)
+            simpa using this
+          rw [hn] at hset
+          obtain ⟨a', hok, ha, hi⟩ := hset
+          refine ⟨a', hok, ?_, hi, by rw [setItem_keeps_dropAt a a' _ _ hok, hd]⟩
+          have hane : a.abs ≠ [] := by rw [habs]; simpa using hne
+          rw [ha, set_last _ _ hane, habs, List.map_append, List.map_dropLast]; rfl
+        · simp only [heq, if_false]
+          have hfuel : a.len.toNat = a.abs.length := by rw [hlen, habs, List.length_map]; omega
+          rw [hfuel]
+          obtain ⟨a', hok, ha, hi⟩ := replaceLoop_refines (enc c) a.abs.length a 1 h (Nat.le_refl 1) rfl (by
+            intro y hy
+            have : a.abs.length + 1 - 1 = a.abs.length := by omega
+            rw [this, List.drop_length] at hy
+            exact absurd hy (by simp))
+          refine ⟨a', hok, ?_, hi, by rw [replaceLoop_keeps_dropAt _ _ _ _ _ hok, hd]⟩
+          rw [ha, habs, replaceFromEndR_map]
+
+open Jesse.StoreD StoreArray Jesse.DynArray in
+/-- ANY sequence of `add_candle` calls on the array = `batchAdd` on the list it holds -/
+theorem batchAddD_refines (cs : List Candle) : ∀ (a : DynArray) (arr : List Candle), Inv a → a.dropAt = none →
+    a.abs = arr.map enc →
+    ∃ a', batchAddD a (cs.map enc) = .ok a' ∧ a'.abs = (Store.batchAdd arr cs).map enc ∧ Inv a' ∧ a'.dropAt = none := by
+  induction cs with
+  | nil => intro a arr h hd habs; exact ⟨a, rfl, habs, h, hd⟩
+  | cons c cs ih =>
+    intro a arr h hd habs
+    obtain ⟨a1, hok, ha, hi, hd1⟩ := addCandleD_refines a h hd arr c habs
+    obtain ⟨a2, hok2, ha2, hi2, hd2⟩ := ih a1 (Store.addCandle arr c) hi hd1 ha
+    refine ⟨a2, ?_, ?_, hi2, hd2⟩
+    · simp only [List.map_cons, batchAddD, hok]; exact hok2
+    · rw [ha2]; rfl
+
+open Jesse.StoreD StoreArray Jesse.DynArray in
+/-- from a fresh array of any bucket size: whatever candles are added in whatever order, no call raises and the rows
+    the array holds are the candles of a strictly increasing series -/
+theorem store_on_array_strictly_increasing (bucket : Nat) (hb : 0 < bucket) (cs : List Candle) :
+    ∃ a' arr, batchAddD (DynArray.new bucket 6 none) (cs.map enc) = .ok a' ∧ a'.abs = arr.map enc ∧ Sorted arr := by
+  obtain ⟨hinv, habs⟩ := C18.inv_new bucket 6 none hb
+  obtain ⟨a', hok, ha, _, _⟩ := batchAddD_refines cs (DynArray.new bucket 6 none) [] hinv rfl (by rw [habs]; rfl)
+  exact ⟨a', Store.batchAdd [] cs, hok, ha, store_strictly_increasing cs⟩
+
+/-- non-vacuity: bucket 2 (so the array grows), a new minute, the last minute again, an older minute, a zero timestamp -/
+example : (match Jesse.StoreD.batchAddD (DynArray.new 2 6 none)
+      ([⟨60000, 1, 2, 3, 0, 5⟩, ⟨120000, 2, 2, 2, 2, 1⟩, ⟨180000, 2, 3, 4, 1, 1⟩, ⟨180000, 2, 5, 6, 1, 2⟩,
+        ⟨120000, 9, 9, 9, 9, 9⟩, ⟨0, 7, 7, 7, 7, 7⟩].map Jesse.StoreD.enc) with
+    | .ok a => decide (a.abs = ([⟨60000, 1, 2, 3, 0, 5⟩, ⟨120000, 9, 9, 9, 9, 9⟩, ⟨180000, 2, 5, 6, 1, 2⟩] : List Candle).map Jesse.StoreD.enc)
+    | _ => false) = true := by decide +kernel
 
 /-- the isolated backtest rejects input whose two leading candles are not one minute apart
     (model of the check in `_isolated_backtest`; it looks at the first two rows only, as the code does) -/
